@@ -4,7 +4,10 @@ import DoitModel.Proofs.C05Main
 Node invariant `NDp`: every name in a node's dependency lists is a dependency of the task that the run has OBSERVED
 (`DepObs` / `CalcObs`: task_dep, calc_dep, what calc_deps with a finish report in the event list delivered) or — once
 `select_task` has looked at the task (`run_status` is not `None`) — one of its setup-tasks; every member of `bad_deps`
-(`ignored_deps`) is such a dependency and has a failure (`skip_ignore`) report. -/
+(`ignored_deps`) is such a dependency and has a failure (`skip_ignore`) report.  The invariant itself is stated over the
+wider relations `DepObsF` / `CalcObsF` (also what a calc_dep that was STARTED and then reported failed delivered:
+`Run.deliverF`); `DepObsF.reduce` brings a justification back to the narrow ones, so no hypothesis on `calcResFail` is
+needed. -/
 namespace DoitModel.Run
 
 /-- calc_deps of `t`, including those delivered by calc_deps that have a finish report in `evs` -/
@@ -57,17 +60,117 @@ def IsDep (inp : RunInput) (n d : Name) : Prop := DepNS inp n d ∨ d ∈ inp.se
 theorem IsDepO.isDep {inp : RunInput} {evs : List Ev} {n d : Name} {st : RS} (h : IsDepO inp evs n st d) :
     IsDep inp n d := h.imp (fun a => a.depNS) (fun a => a.1)
 
+/-! ### the same relations with what FAILED calc tasks delivered
+
+`_process_calc_dep_results` reads `task.values` of a calc task whatever its `run_status` (`Run.deliverF`, oracle
+`calcResFail`): a calc_dep that was STARTED in this run and then reported failed delivers what its actions returned before
+the failing one.  The node invariant is stated over these wider relations; the statements about reports keep the narrow
+ones, because a dependency that only a failed calc task delivered always comes with that failed calc task
+(`DepObsF.reduce`). -/
+
+/-- `c` was started in `evs` and has a failure report -/
+def FailedRun (evs : List Ev) (c : Name) : Prop := (∃ w, Ev.start c w ∈ evs) ∧ ∃ k, Ev.failure c k ∈ evs
+
+theorem FailedRun.mono {evs evs' : List Ev} {c : Name} (hm : ∀ e ∈ evs, e ∈ evs') (h : FailedRun evs c) :
+    FailedRun evs' c := by
+  obtain ⟨⟨w, a⟩, k, b⟩ := h; exact ⟨⟨w, hm _ a⟩, k, hm _ b⟩
+
+inductive CalcObsF (inp : RunInput) (evs : List Ev) (t : Name) : Name → Prop
+  | base {c : Name} : c ∈ inp.calcDep t → CalcObsF inp evs t c
+  | step {c c' : Name} : CalcObsF inp evs t c → finBefore evs c → c' ∈ (inp.calcRes c).calcs → CalcObsF inp evs t c'
+  | stepF {c c' : Name} : CalcObsF inp evs t c → FailedRun evs c → c' ∈ (inp.calcResFail c).calcs → CalcObsF inp evs t c'
+
+inductive DepObsF (inp : RunInput) (evs : List Ev) (t : Name) : Name → Prop
+  | task {d : Name} : d ∈ inp.taskDep t → DepObsF inp evs t d
+  | ofCalc {c : Name} : CalcObsF inp evs t c → DepObsF inp evs t c
+  | resTask {c d : Name} : CalcObsF inp evs t c → finBefore evs c → d ∈ (inp.calcRes c).tasks → DepObsF inp evs t d
+  | resFile {c d : Name} : CalcObsF inp evs t c → finBefore evs c → d ∈ (inp.calcRes c).files → DepObsF inp evs t d
+  | resTaskF {c d : Name} : CalcObsF inp evs t c → FailedRun evs c → d ∈ (inp.calcResFail c).tasks → DepObsF inp evs t d
+  | resFileF {c d : Name} : CalcObsF inp evs t c → FailedRun evs c → d ∈ (inp.calcResFail c).files → DepObsF inp evs t d
+
+theorem CalcObsF.mono {inp : RunInput} {evs evs' : List Ev} {t c : Name} (hm : ∀ e ∈ evs, e ∈ evs')
+    (h : CalcObsF inp evs t c) : CalcObsF inp evs' t c := by
+  induction h with
+  | base h => exact .base h
+  | step _ hf hc ih => exact .step ih (finBefore_mono hm hf) hc
+  | stepF _ hf hc ih => exact .stepF ih (hf.mono hm) hc
+
+theorem DepObsF.mono {inp : RunInput} {evs evs' : List Ev} {t d : Name} (hm : ∀ e ∈ evs, e ∈ evs')
+    (h : DepObsF inp evs t d) : DepObsF inp evs' t d := by
+  cases h with
+  | task h => exact .task h
+  | ofCalc h => exact .ofCalc (h.mono hm)
+  | resTask h f m => exact .resTask (h.mono hm) (finBefore_mono hm f) m
+  | resFile h f m => exact .resFile (h.mono hm) (finBefore_mono hm f) m
+  | resTaskF h f m => exact .resTaskF (h.mono hm) (f.mono hm) m
+  | resFileF h f m => exact .resFileF (h.mono hm) (f.mono hm) m
+
+/-- a calc_dep that only a failed calc task delivered comes with a failed calc_dep observed the narrow way -/
+theorem CalcObsF.reduce {inp : RunInput} {evs : List Ev} {t c : Name} (h : CalcObsF inp evs t c) :
+    CalcObs inp evs t c ∨ ∃ c0 k, CalcObs inp evs t c0 ∧ Ev.failure c0 k ∈ evs := by
+  induction h with
+  | base h => exact Or.inl (.base h)
+  | step _ hf hc ih =>
+    rcases ih with a | a
+    · exact Or.inl (.step a hf hc)
+    · exact Or.inr a
+  | stepF _ hf _ ih =>
+    rcases ih with a | a
+    · obtain ⟨_, k, hk⟩ := hf; exact Or.inr ⟨_, k, a, hk⟩
+    · exact Or.inr a
+
+theorem DepObsF.reduce {inp : RunInput} {evs : List Ev} {t d : Name} (h : DepObsF inp evs t d) :
+    DepObs inp evs t d ∨ ∃ c0 k, CalcObs inp evs t c0 ∧ Ev.failure c0 k ∈ evs := by
+  cases h with
+  | task h => exact Or.inl (.task h)
+  | ofCalc h => exact h.reduce.imp (fun a => .ofCalc a) id
+  | resTask h f m => exact h.reduce.imp (fun a => .resTask a f m) id
+  | resFile h f m => exact h.reduce.imp (fun a => .resFile a f m) id
+  | resTaskF h f _ =>
+    rcases h.reduce with a | a
+    · obtain ⟨_, k, hk⟩ := f; exact Or.inr ⟨_, k, a, hk⟩
+    · exact Or.inr a
+  | resFileF h f _ =>
+    rcases h.reduce with a | a
+    · obtain ⟨_, k, hk⟩ := f; exact Or.inr ⟨_, k, a, hk⟩
+    · exact Or.inr a
+
+def IsDepOF (inp : RunInput) (evs : List Ev) (n : Name) (st : RS) (d : Name) : Prop :=
+  DepObsF inp evs n d ∨ (d ∈ inp.setup n ∧ st ≠ .none)
+
+theorem IsDepOF.mono {inp : RunInput} {evs evs' : List Ev} {n d : Name} {st : RS} (hm : ∀ e ∈ evs, e ∈ evs')
+    (h : IsDepOF inp evs n st d) : IsDepOF inp evs' n st d := h.imp (fun a => a.mono hm) id
+
+/-- a member of `bad_deps` / `ignored_deps` seen the wide way yields a justification seen the narrow way: itself, or the
+    failed calc task that delivered it -/
+theorem IsDepOF.witness {inp : RunInput} {evs : List Ev} {n p : Name} {st : RS} (h : IsDepOF inp evs n st p) :
+    (DepObs inp evs n p ∨ (p ∈ inp.setup n ∧ st ≠ .none)) ∨ ∃ c0 k, DepObs inp evs n c0 ∧ Ev.failure c0 k ∈ evs := by
+  rcases h with a | a
+  · rcases a.reduce with b | ⟨c0, k, b, hk⟩
+    · exact Or.inl (Or.inl b)
+    · exact Or.inr ⟨c0, k, .ofCalc b, hk⟩
+  · exact Or.inl (Or.inr a)
+
+theorem started_mem {s : Sys} {p : Name} (h : started s p = true) : ∃ w, Ev.start p w ∈ s.events := by
+  unfold started at h
+  obtain ⟨e, he, hp⟩ := List.any_eq_true.mp h
+  cases e with
+  | start n w =>
+    have : n = p := by simpa using hp
+    subst this; exact ⟨w, he⟩
+  | _ => simp at hp
+
 structure NDp (inp : RunInput) (evs : List Ev) (n : Name) (nd : Node) : Prop where
-  dt : ∀ d ∈ nd.dynTask, DepObs inp evs n d
-  dc : ∀ d ∈ nd.dynCalc, CalcObs inp evs n d
-  pt : ∀ d ∈ nd.pendTask, DepObs inp evs n d
-  pcalc : ∀ d ∈ nd.pendCalc, CalcObs inp evs n d
-  st : ∀ d ∈ nd.snapTask, DepObs inp evs n d
-  sc : ∀ d ∈ nd.snapCalc, CalcObs inp evs n d
-  wr : ∀ d ∈ nd.waitRun, IsDepO inp evs n nd.status d
-  wc : ∀ d ∈ nd.waitRunCalc, CalcObs inp evs n d
-  bd : ∀ p ∈ nd.bad, IsDepO inp evs n nd.status p ∧ ∃ k, Ev.failure p k ∈ evs
-  ig : ∀ p ∈ nd.ign, IsDepO inp evs n nd.status p ∧ Ev.skipIgn p ∈ evs
+  dt : ∀ d ∈ nd.dynTask, DepObsF inp evs n d
+  dc : ∀ d ∈ nd.dynCalc, CalcObsF inp evs n d
+  pt : ∀ d ∈ nd.pendTask, DepObsF inp evs n d
+  pcalc : ∀ d ∈ nd.pendCalc, CalcObsF inp evs n d
+  st : ∀ d ∈ nd.snapTask, DepObsF inp evs n d
+  sc : ∀ d ∈ nd.snapCalc, CalcObsF inp evs n d
+  wr : ∀ d ∈ nd.waitRun, IsDepOF inp evs n nd.status d
+  wc : ∀ d ∈ nd.waitRunCalc, CalcObsF inp evs n d
+  bd : ∀ p ∈ nd.bad, IsDepOF inp evs n nd.status p ∧ ∃ k, Ev.failure p k ∈ evs
+  ig : ∀ p ∈ nd.ign, IsDepOF inp evs n nd.status p ∧ Ev.skipIgn p ∈ evs
   sp : ∀ todo, nd.pc = .setupIter todo → nd.status ≠ .none
 
 def AllND (inp : RunInput) (s : Sys) : Prop := ∀ n nd, s.nodes n = some nd → NDp inp s.events n nd
@@ -104,14 +207,14 @@ theorem mkNode_nd (inp : RunInput) (evs : List Ev) (t : Name) (anc : List Name) 
   · intro todo h; simp [mkNode] at h
 
 theorem addDeps_nd {inp : RunInput} {evs : List Ev} {n p : Name} {nd : Node} (h : NDp inp evs n nd)
-    (hp : CalcObs inp evs n p) (hf : finBefore evs p) : NDp inp evs n (nd.addDeps (inp.calcRes p)) := by
-  have nt : ∀ d ∈ newTaskDeps nd (inp.calcRes p), DepObs inp evs n d := by
+    (hp : CalcObsF inp evs n p) (hf : finBefore evs p) : NDp inp evs n (nd.addDeps (inp.calcRes p)) := by
+  have nt : ∀ d ∈ newTaskDeps nd (inp.calcRes p), DepObsF inp evs n d := by
     intro d hd
     simp only [newTaskDeps, List.mem_append] at hd
     rcases hd with a | a
     · exact .resTask hp hf a
     · exact .resFile hp hf (implicitNew_mem a)
-  have nc : ∀ d ∈ newCalcDeps nd (inp.calcRes p), CalcObs inp evs n d := by
+  have nc : ∀ d ∈ newCalcDeps nd (inp.calcRes p), CalcObsF inp evs n d := by
     intro d hd
     simp only [newCalcDeps, List.mem_filter] at hd
     exact .step hp hf (mem_dedup.mp hd.1)
@@ -137,13 +240,55 @@ theorem deliver_status (inp : RunInput) (pst : RS) (p : Name) (nd : Node) : (del
   unfold deliver; split <;> rfl
 
 theorem deliver_nd {inp : RunInput} {evs : List Ev} {n p : Name} {nd : Node} {pst : RS} (h : NDp inp evs n nd)
-    (hp : CalcObs inp evs n p) (hg : PstOK evs pst p) : NDp inp evs n (deliver inp pst p nd) := by
+    (hp : CalcObsF inp evs n p) (hg : PstOK evs pst p) : NDp inp evs n (deliver inp pst p nd) := by
   unfold deliver; split
   · rename_i e; exact addDeps_nd h hp (hg.g e)
   · exact h
 
+theorem addDepsF_nd {inp : RunInput} {evs : List Ev} {n p : Name} {nd : Node} (h : NDp inp evs n nd)
+    (hp : CalcObsF inp evs n p) (hf : FailedRun evs p) : NDp inp evs n (nd.addDeps (inp.calcResFail p)) := by
+  have nt : ∀ d ∈ newTaskDeps nd (inp.calcResFail p), DepObsF inp evs n d := by
+    intro d hd
+    simp only [newTaskDeps, List.mem_append] at hd
+    rcases hd with a | a
+    · exact .resTaskF hp hf a
+    · exact .resFileF hp hf (implicitNew_mem a)
+  have nc : ∀ d ∈ newCalcDeps nd (inp.calcResFail p), CalcObsF inp evs n d := by
+    intro d hd
+    simp only [newCalcDeps, List.mem_filter] at hd
+    exact .stepF hp hf (mem_dedup.mp hd.1)
+  refine ⟨?_, ?_, ?_, ?_, h.st, h.sc, h.wr, h.wc, h.bd, h.ig, h.sp⟩
+  · intro d hd; simp only [Node.addDeps, List.mem_append] at hd
+    rcases hd with a | a
+    · exact h.dt d a
+    · exact nt d a
+  · intro d hd; simp only [Node.addDeps, List.mem_append] at hd
+    rcases hd with a | a
+    · exact h.dc d a
+    · exact nc d a
+  · intro d hd; simp only [Node.addDeps, List.mem_append] at hd
+    rcases hd with a | a
+    · exact h.pt d a
+    · exact nt d a
+  · intro d hd; simp only [Node.addDeps, List.mem_append, List.mem_filter] at hd
+    rcases hd with a | a
+    · exact h.pcalc d a
+    · exact nc d a.1
+
+theorem deliverF_status (inp : RunInput) (ex : Bool) (pst : RS) (p : Name) (nd : Node) :
+    (deliverF inp ex pst p nd).status = nd.status := by
+  unfold deliverF; split <;> rfl
+
+/-- the delivery of a calc task that was started and then failed -/
+theorem deliverF_nd {inp : RunInput} {evs : List Ev} {n p : Name} {nd : Node} {pst : RS} {ex : Bool}
+    (h : NDp inp evs n nd) (hp : CalcObsF inp evs n p) (hg : PstOK evs pst p)
+    (hex : ex = true → ∃ w, Ev.start p w ∈ evs) : NDp inp evs n (deliverF inp ex pst p nd) := by
+  unfold deliverF; split
+  · rename_i e; exact addDepsF_nd h hp ⟨hex e.2, hg.f e.1⟩
+  · exact h
+
 theorem parentStatus_nd {inp : RunInput} {evs : List Ev} {n p : Name} {nd : Node} {pst : RS} (h : NDp inp evs n nd)
-    (hd : IsDepO inp evs n nd.status p) (hf : PstOK evs pst p) : NDp inp evs n (parentStatus pst p nd) := by
+    (hd : IsDepOF inp evs n nd.status p) (hf : PstOK evs pst p) : NDp inp evs n (parentStatus pst p nd) := by
   refine ⟨h.dt, h.dc, h.pt, h.pcalc, h.st, h.sc, h.wr, h.wc, ?_, ?_, h.sp⟩
   · intro x hx
     simp only [parentStatus] at hx
@@ -162,50 +307,51 @@ theorem parentStatus_nd {inp : RunInput} {evs : List Ev} {n p : Name} {nd : Node
       · simp at a; subst a; exact ⟨hd, hf.i e⟩
     · exact h.ig x hx
 
-theorem absorbDone_status (inp : RunInput) [NoFailDeliver inp] (s : Sys) (isCalc : Bool) : ∀ (ds : List Name) (nd : Node),
+theorem absorbDone_status (inp : RunInput) (s : Sys) (isCalc : Bool) : ∀ (ds : List Name) (nd : Node),
     (absorbDone inp s isCalc ds nd).status = nd.status := by
   intro ds
   induction ds with
   | nil => intro nd; rfl
   | cons a t ih =>
     intro nd
-    simp only [absorbDone, deliverF_id (inp := inp)]
+    simp only [absorbDone]
     split
     · exact ih nd
     · rw [ih]; split
-      · rw [deliver_status]; rfl
+      · rw [deliverF_status, deliver_status]; rfl
       · rfl
 
-theorem absorbDone_nd {inp : RunInput} [NoFailDeliver inp] {s : Sys} {evs : List Ev} {n : Name} (isCalc : Bool) (st0 : RS)
-    (hes : EvSt evs s) :
+theorem absorbDone_nd {inp : RunInput} {s : Sys} {evs : List Ev} {n : Name} (isCalc : Bool) (st0 : RS)
+    (hes : EvSt evs s) (hse : ∀ e ∈ s.events, e ∈ evs) :
     ∀ (ds : List Name) (nd : Node), NDp inp evs n nd → nd.status = st0 →
-      (∀ d ∈ ds, if isCalc = true then CalcObs inp evs n d else IsDepO inp evs n st0 d) →
+      (∀ d ∈ ds, if isCalc = true then CalcObsF inp evs n d else IsDepOF inp evs n st0 d) →
       NDp inp evs n (absorbDone inp s isCalc ds nd) := by
   intro ds
   induction ds with
   | nil => intro nd h _ _; exact h
   | cons a t ih =>
     intro nd h hst hds
-    simp only [absorbDone, deliverF_id (inp := inp)]
+    simp only [absorbDone]
     have ha := hds a (by simp)
     split
     · exact ih nd h hst (fun d hd => hds d (by simp [hd]))
     · split
       · rename_i hc
         simp only [hc, if_true] at ha
-        refine ih _ (deliver_nd (parentStatus_nd h (Or.inl (.ofCalc ha)) (hes a)) ha (hes a)) ?_
+        refine ih _ (deliverF_nd (deliver_nd (parentStatus_nd h (Or.inl (.ofCalc ha)) (hes a)) ha (hes a)) ha (hes a)
+          (fun e => by obtain ⟨w, hw⟩ := started_mem e; exact ⟨w, hse _ hw⟩)) ?_
           (fun d hd => hds d (by simp [hd]))
-        rw [deliver_status]; exact hst
+        rw [deliverF_status, deliver_status]; exact hst
       · rename_i hc
         simp only [hc] at ha
         exact ih _ (parentStatus_nd h (hst ▸ ha) (hes a)) hst (fun d hd => hds d (by simp [hd]))
 
-theorem waitNode_nd {inp : RunInput} [NoFailDeliver inp] {s : Sys} {evs : List Ev} {n : Name} {nd : Node} (ds : List Name) (isCalc : Bool)
-    (pc' : PC) (hes : EvSt evs s) (h : NDp inp evs n nd)
-    (hds : ∀ d ∈ ds, if isCalc = true then CalcObs inp evs n d else IsDepO inp evs n nd.status d)
+theorem waitNode_nd {inp : RunInput} {s : Sys} {evs : List Ev} {n : Name} {nd : Node} (ds : List Name) (isCalc : Bool)
+    (pc' : PC) (hes : EvSt evs s) (hse : ∀ e ∈ s.events, e ∈ evs) (h : NDp inp evs n nd)
+    (hds : ∀ d ∈ ds, if isCalc = true then CalcObsF inp evs n d else IsDepOF inp evs n nd.status d)
     (hpc : ∀ todo, pc' = .setupIter todo → nd.status ≠ .none) :
     NDp inp evs n (waitNode inp s nd ds isCalc pc') := by
-  have a := absorbDone_nd (s := s) isCalc nd.status hes ds nd h rfl hds
+  have a := absorbDone_nd (s := s) isCalc nd.status hes hse ds nd h rfl hds
   have est : (absorbDone inp s isCalc ds nd).status = nd.status := absorbDone_status inp s isCalc ds nd
   unfold waitNode addWaits
   split
@@ -221,7 +367,7 @@ theorem waitNode_nd {inp : RunInput} [NoFailDeliver inp] {s : Sys} {evs : List E
     intro d hd
     rcases List.mem_append.mp hd with x | x
     · have := hds d (List.mem_filter.mp x).1
-      have : IsDepO inp evs n nd.status d := by simpa [hc] using this
+      have : IsDepOF inp evs n nd.status d := by simpa [hc] using this
       exact est ▸ this
     · exact a.wr d x
 
@@ -294,16 +440,16 @@ theorem genStep_nd {inp : RunInput} {evs : List Ev} {s : Sys} {n : Name} {nd : N
     · exact h
     · exact nd_setNode h hx
 
-theorem addWaitRun_nd {inp : RunInput} [NoFailDeliver inp] {evs : List Ev} {s : Sys} {n : Name} {nd : Node} (ds : List Name) (c : Bool)
-    (pc' : PC) (hfe : EvSt evs s) (h : AllNDe inp evs s)
-    (hn : s.nodes n = some nd) (hds : ∀ d ∈ ds, if c = true then CalcObs inp evs n d else IsDepO inp evs n nd.status d)
+theorem addWaitRun_nd {inp : RunInput} {evs : List Ev} {s : Sys} {n : Name} {nd : Node} (ds : List Name) (c : Bool)
+    (pc' : PC) (hfe : EvSt evs s) (hse : ∀ e ∈ s.events, e ∈ evs) (h : AllNDe inp evs s)
+    (hn : s.nodes n = some nd) (hds : ∀ d ∈ ds, if c = true then CalcObsF inp evs n d else IsDepOF inp evs n nd.status d)
     (hpc : ∀ todo, pc' = .setupIter todo → nd.status ≠ .none) :
     AllNDe inp evs (addWaitRun inp s n nd ds c pc') := by
   unfold addWaitRun
-  exact nd_registerWaiting n _ (nd_setNode h (waitNode_nd ds c pc' hfe (h n nd hn) hds hpc))
+  exact nd_registerWaiting n _ (nd_setNode h (waitNode_nd ds c pc' hfe hse (h n nd hn) hds hpc))
 
-theorem nodeStep_nd {inp : RunInput} [NoFailDeliver inp] {evs : List Ev} {s s' : Sys} {n : Name} {nd : Node} {perm : List Name}
-    (hfe : EvSt evs s) (h : AllNDe inp evs s) (hn : s.nodes n = some nd)
+theorem nodeStep_nd {inp : RunInput} {evs : List Ev} {s s' : Sys} {n : Name} {nd : Node} {perm : List Name}
+    (hfe : EvSt evs s) (hse : ∀ e ∈ s.events, e ∈ evs) (h : AllNDe inp evs s) (hn : s.nodes n = some nd)
     (hs : nodeStep inp s n nd perm = some s') : AllNDe inp evs s' := by
   have hnd := h n nd hn
   unfold nodeStep at hs
@@ -321,15 +467,15 @@ theorem nodeStep_nd {inp : RunInput} [NoFailDeliver inp] {evs : List Ev} {s s' :
     | cons d ds => cases hs; exact genStep_nd d _ h hn (fun _ e => by cases e)
     | nil =>
       cases hs
-      exact addWaitRun_nd _ _ _ hfe h hn (fun d hd => by simpa using hnd.sc d hd) (fun _ e => by cases e)
+      exact addWaitRun_nd _ _ _ hfe hse h hn (fun d hd => by simpa using hnd.sc d hd) (fun _ e => by cases e)
   | taskIter todo =>
     simp only [hpc] at hs
     cases todo with
     | cons d ds => cases hs; exact genStep_nd d _ h hn (fun _ e => by cases e)
     | nil =>
       cases hs
-      exact addWaitRun_nd _ _ _ hfe h hn (fun d hd => by
-        have : IsDepO inp evs n nd.status d := Or.inl (hnd.st d hd)
+      exact addWaitRun_nd _ _ _ hfe hse h hn (fun d hd => by
+        have : IsDepOF inp evs n nd.status d := Or.inl (hnd.st d hd)
         simpa using this) (fun _ e => by cases e)
   | afterDeps =>
     simp only [hpc] at hs
@@ -360,8 +506,8 @@ theorem nodeStep_nd {inp : RunInput} [NoFailDeliver inp] {evs : List Ev} {s s' :
     | cons d ds => cases hs; exact genStep_nd d _ h hn (fun _ _ => hnd.sp _ hpc)
     | nil =>
       cases hs
-      exact addWaitRun_nd _ _ _ hfe h hn (fun d hd => by
-        have : IsDepO inp evs n nd.status d := Or.inr ⟨hd, hnd.sp _ hpc⟩
+      exact addWaitRun_nd _ _ _ hfe hse h hn (fun d hd => by
+        have : IsDepOF inp evs n nd.status d := Or.inr ⟨hd, hnd.sp _ hpc⟩
         simpa using this) (fun _ e => by cases e)
   | afterSetup =>
     simp only [hpc] at hs
@@ -372,8 +518,8 @@ theorem nodeStep_nd {inp : RunInput} [NoFailDeliver inp] {evs : List Ev} {s s' :
   | afterSelf2 => simp only [hpc] at hs; cases hs; exact nd_setNode h (hnd.setPc _ (fun _ e => by cases e))
   | done => simp only [hpc] at hs; cases hs; exact h
 
-theorem dtick_nd {inp : RunInput} [NoFailDeliver inp] {evs : List Ev} {s s' : Sys} {perm : List Name}
-    (hfe : EvSt evs s) (h : AllNDe inp evs s)
+theorem dtick_nd {inp : RunInput} {evs : List Ev} {s s' : Sys} {perm : List Name}
+    (hfe : EvSt evs s) (hse : ∀ e ∈ s.events, e ∈ evs) (h : AllNDe inp evs s)
     (hs : dtick inp s perm = some s') : AllNDe inp evs s' := by
   unfold dtick at hs
   cases hc : s.cur with
@@ -381,7 +527,7 @@ theorem dtick_nd {inp : RunInput} [NoFailDeliver inp] {evs : List Ev} {s s' : Sy
     simp only [hc] at hs
     cases hn : s.nodes n with
     | none => simp only [hn] at hs; cases hs; exact h
-    | some nd => simp only [hn] at hs; exact nodeStep_nd hfe h hn hs
+    | some nd => simp only [hn] at hs; exact nodeStep_nd hfe hse h hn hs
   | none =>
     simp only [hc] at hs
     split at hs
@@ -394,32 +540,42 @@ theorem dtick_nd {inp : RunInput} [NoFailDeliver inp] {evs : List Ev} {s s' : Sy
         · split at hs <;> (cases hs; exact h)
         · cases hs; exact h
 
-theorem wakeOne_nd {inp : RunInput} [NoFailDeliver inp] {evs : List Ev} {s : Sys} {pst : RS} {p w : Name} {nd : Node}
+theorem wokenF_nd {inp : RunInput} {evs : List Ev} {s : Sys} {n p : Name} {nd : Node} {pst : RS} (h : NDp inp evs n nd)
+    (hnc : wakeCrash p nd = false) (hf : PstOK evs pst p) (hse : ∀ e ∈ s.events, e ∈ evs) :
+    NDp inp evs n (wokenF inp s pst p nd) := by
+  have a := wokenNode_nd (inp := inp) h hnc hf
+  unfold wokenF; split
+  · rename_i hc
+    exact deliverF_nd a (h.wc p hc) hf (fun e => by obtain ⟨w, hw⟩ := started_mem e; exact ⟨w, hse _ hw⟩)
+  · exact a
+
+theorem wakeOne_nd {inp : RunInput} {evs : List Ev} {s : Sys} {pst : RS} {p w : Name} {nd : Node}
     (h : AllNDe inp evs s) (hw : s.nodes w = some nd) (hnc : wakeCrash p nd = false)
-    (hf : PstOK evs pst p) : AllNDe inp evs (wakeOne inp s pst p w nd) := by
-  have := nd_setNode h (wokenNode_nd (inp := inp) (h w nd hw) hnc hf)
-  rw [wakeOne_eq (inp := inp)]; split
+    (hf : PstOK evs pst p) (hse : ∀ e ∈ s.events, e ∈ evs) : AllNDe inp evs (wakeOne inp s pst p w nd) := by
+  have := nd_setNode h (wokenF_nd (inp := inp) (s := s) (h w nd hw) hnc hf hse)
+  unfold wakeOne; split
   · intro k y hk; exact this k y hk
   · exact this
 
-theorem updateWaiting_nd {inp : RunInput} [NoFailDeliver inp] {evs : List Ev} {pst : RS} {p : Name}
+theorem updateWaiting_nd {inp : RunInput} {evs : List Ev} {pst : RS} {p : Name}
     (hf : PstOK evs pst p) :
-    ∀ (perm : List Name) (s s' : Sys), AllNDe inp evs s → updateWaiting inp pst p s perm = some s' →
-      AllNDe inp evs s' := by
+    ∀ (perm : List Name) (s s' : Sys), AllNDe inp evs s → (∀ e ∈ s.events, e ∈ evs) →
+      updateWaiting inp pst p s perm = some s' → AllNDe inp evs s' := by
   intro perm
   induction perm with
-  | nil => intro s s' h hs; simp only [updateWaiting] at hs; cases hs; exact h
+  | nil => intro s s' h _ hs; simp only [updateWaiting] at hs; cases hs; exact h
   | cons w ws ih =>
-    intro s s' h hs
+    intro s s' h hse hs
     simp only [updateWaiting] at hs
     cases hw : s.nodes w with
-    | none => simp only [hw] at hs; exact ih s s' h hs
+    | none => simp only [hw] at hs; exact ih s s' h hse hs
     | some nd =>
       simp only [hw] at hs
       split at hs
       · cases hs
       · rename_i hnc
-        exact ih _ s' (wakeOne_nd h hw (by simpa using hnc) hf) hs
+        refine ih _ s' (wakeOne_nd h hw (by simpa using hnc) hf hse) ?_ hs
+        rw [(wakeOne_outer inp s pst p w nd).1.1]; exact hse
 
 theorem sendHead_nd {inp : RunInput} {evs : List Ev} {s : Sys} {p : Name} {nd : Node} (h : AllNDe inp evs s)
     (hn : s.nodes p = some nd) : AllNDe inp evs (sendHead s p nd) := by
@@ -430,8 +586,8 @@ theorem sendHead_nd {inp : RunInput} {evs : List Ev} {s : Sys} {p : Name} {nd : 
       ⟨hnd.dt, hnd.dc, hnd.pt, hnd.pcalc, hnd.st, hnd.sc, hnd.wr, hnd.wc, hnd.bd, hnd.ig, hnd.sp⟩ k y hk
   · exact h
 
-theorem send_nd {inp : RunInput} [NoFailDeliver inp] {evs : List Ev} {s s' : Sys} {processed : Option Name} {perm : List Name}
-    (hfe : EvSt evs s) (h : AllNDe inp evs s)
+theorem send_nd {inp : RunInput} {evs : List Ev} {s s' : Sys} {processed : Option Name} {perm : List Name}
+    (hfe : EvSt evs s) (hse : ∀ e ∈ s.events, e ∈ evs) (h : AllNDe inp evs s)
     (hs : send inp s processed perm = some s') : AllNDe inp evs s' := by
   unfold send at hs
   cases processed with
@@ -452,7 +608,8 @@ theorem send_nd {inp : RunInput} [NoFailDeliver inp] {evs : List Ev} {s s' : Sys
             | none => simp only [hu] at hs; cases hs; exact sendHead_nd h hn
             | some s2 =>
               simp only [hu] at hs; cases hs
-              exact updateWaiting_nd hf perm _ s2 (sendHead_nd h hn) hu
+              refine updateWaiting_nd hf perm _ s2 (sendHead_nd h hn) ?_ hu
+              rw [(sendHead_outer s p nd).1.1]; exact hse
           · cases hs
 
 /-! ### the system invariant -/
@@ -466,7 +623,7 @@ theorem allND_status {inp : RunInput} {evs : List Ev} {s : Sys} {n : Name} {nd :
     (hn : s.nodes n = some nd) (st' : RS) (hne : st' ≠ .none) :
     AllNDe inp evs (setNode s n { nd with status := st' }) := by
   have hnd := h n nd hn
-  have up : ∀ d, IsDepO inp evs n nd.status d → IsDepO inp evs n st' d := fun d hd => hd.imp id (fun a => ⟨a.1, hne⟩)
+  have up : ∀ d, IsDepOF inp evs n nd.status d → IsDepOF inp evs n st' d := fun d hd => hd.imp id (fun a => ⟨a.1, hne⟩)
   exact nd_setNode h ⟨hnd.dt, hnd.dc, hnd.pt, hnd.pcalc, hnd.st, hnd.sc, fun d hd => up d (hnd.wr d hd), hnd.wc,
     fun p hp => ⟨up p (hnd.bd p hp).1, (hnd.bd p hp).2⟩, fun p hp => ⟨up p (hnd.ig p hp).1, (hnd.ig p hp).2⟩,
     fun _ _ => hne⟩
@@ -547,7 +704,9 @@ theorem invU_select {inp : RunInput} {s s' : Sys} {n : Name} {nd : Node} (h : In
       | nil => exact absurd hbl hb
       | cons p ps =>
         obtain ⟨h1, k, h2⟩ := (h.nd t nd hn).bd p (by rw [hbl]; simp)
-        exact ⟨p, k, h1.imp id (fun x => x.1), h2⟩
+        rcases h1.witness with a | ⟨c0, k0, a, b⟩
+        · exact ⟨p, k, a.imp id (fun x => x.1), h2⟩
+        · exact ⟨c0, k0, Or.inl a, b⟩
 
 theorem resEvents_no_unmet (n : Name) (o : Outcome) (t : Name) : Ev.failure t .unmet ∉ resEvents n o := by
   intro h; cases o <;> simp [resEvents] at h
@@ -565,7 +724,7 @@ theorem invU_result {inp : RunInput} {s s1 s' : Sys} {n : Name} {nd : Node} (h :
     · exact absurd a (resEvents_no_unmet n _ t)
     · exact absurd a (quiet_no_unmet hq t)
 
-theorem serialStep_invU {inp : RunInput} [NoFailDeliver inp] {s s' : Sys} {perm : List Name} (h : InvU inp s) (hes : EvSt s.events s)
+theorem serialStep_invU {inp : RunInput} {s s' : Sys} {perm : List Name} (h : InvU inp s) (hes : EvSt s.events s)
     (hs : serialStep inp s perm = some s') : InvU inp s' := by
   have same : ∀ x : Sys, x.nodes = s.nodes → x.events = s.events → InvU inp x :=
     fun x a b => invU_frame h a [] (by simpa using b) (by simp)
@@ -580,13 +739,13 @@ theorem serialStep_invU {inp : RunInput} [NoFailDeliver inp] {s s' : Sys} {perm 
       | some s0 =>
         simp only [hsd] at hs; cases hs
         have o := (send_outer hsd).1.1
-        exact invU_of h ((send_nd hes h.nd hsd).congr rfl) [] (by simpa using o) (fun t ht => by cases ht)
+        exact invU_of h ((send_nd hes (fun _ a => a) h.nd hsd).congr rfl) [] (by simpa using o) (fun t ht => by cases ht)
   | sWait =>
     simp only [hr] at hs
     cases hsu : s.susp with
     | none =>
       simp only [hsu] at hs
-      exact invU_of h (dtick_nd hes h.nd hs) [] (by simpa using (dtick_outer hs).1) (fun t ht => by cases ht)
+      exact invU_of h (dtick_nd hes (fun _ a => a) h.nd hs) [] (by simpa using (dtick_outer hs).1) (fun t ht => by cases ht)
     | some o =>
       simp only [hsu] at hs
       cases o with
@@ -640,7 +799,7 @@ theorem serialStep_invU {inp : RunInput} [NoFailDeliver inp] {s s' : Sys} {perm 
 theorem init_invU (inp : RunInput) : InvU inp (init inp) :=
   ⟨fun k y hk => by simp [init] at hk, fun t ht => by simp [init] at ht⟩
 
-theorem pstep_invU {inp : RunInput} [NoFailDeliver inp] {s s' : Sys} {c : Choice} (h : InvU inp s) (hes : EvSt s.events s)
+theorem pstep_invU {inp : RunInput} {s s' : Sys} {c : Choice} (h : InvU inp s) (hes : EvSt s.events s)
     (hs : pstep inp s c = some s') : InvU inp s' := by
   have same : ∀ x : Sys, x.nodes = s.nodes → x.events = s.events → InvU inp x :=
     fun x a b => invU_frame h a [] (by simpa using b) (by simp)
@@ -686,13 +845,13 @@ theorem pstep_invU {inp : RunInput} [NoFailDeliver inp] {s s' : Sys} {c : Choice
       | some s0 =>
         simp only [hsd] at hs; cases hs
         have o := (send_outer hsd).1.1
-        exact invU_of h ((send_nd hes h.nd hsd).congr rfl) [] (by simpa using o) (fun t ht => by cases ht)
+        exact invU_of h ((send_nd hes (fun _ a => a) h.nd hsd).congr rfl) [] (by simpa using o) (fun t ht => by cases ht)
     | gWait ret =>
       simp only [hr] at hs
       cases hsu : s.susp with
       | none =>
         simp only [hsu] at hs
-        exact invU_of h (dtick_nd hes h.nd hs) [] (by simpa using (dtick_outer hs).1) (fun t ht => by cases ht)
+        exact invU_of h (dtick_nd hes (fun _ a => a) h.nd hs) [] (by simpa using (dtick_outer hs).1) (fun t ht => by cases ht)
       | some o =>
         simp only [hsu] at hs
         cases o with
